@@ -46,6 +46,8 @@ def full_config(d, paths, cfg, out_prefix='out', csv=True, hdf5=True, log_file=T
         c['csv_result_path'] = cfg['csv_override']
     if cfg.get('hdf5_override'):
         c['hdf5_result_path'] = cfg['hdf5_override']
+    if cfg.get('json_override'):
+        c['extended_result_path'] = cfg['json_override']
     return c
 
 
